@@ -240,9 +240,12 @@ func NewReverseInnerSearcher(
 	// Build forward NFA from SUFFIX AST (includes inner + everything after)
 	var suffixNFA *nfa.NFA
 	if innerInfo.SuffixAST != nil {
+		// The suffix must match exactly AT the inner literal candidate, so compile it
+		// anchored: an unanchored suffix DFA would accept a later occurrence of the
+		// suffix whose own prefix was never verified (`\w+@\w+` on "a@ !@b").
 		compiler := nfa.NewCompiler(nfa.CompilerConfig{
 			UTF8:     true,
-			Anchored: false,
+			Anchored: true,
 		})
 		suffixNFA, err = compiler.CompileRegexp(innerInfo.SuffixAST)
 		if err != nil {
